@@ -26,7 +26,7 @@ def budget(tier):
 def strategy_(draw):
     if draw(st.integers(0, 7)) == 0:
         # a wide taxonomy (more than 128 nodes at a level, as real taxonomies have), many runners-up
-        tree = draw(gen.trees(max_levels=2, max_leaves=200, min_leaves=130, mappers='often'))
+        tree = draw(gen.trees(max_levels=2, max_leaves=300, min_leaves=130, mappers='often'))
         spec = dict(draw(gen.map_cases(tree=tree, max_cells=6, allow_flatten=False, allow_drop=False)))
         spec['cfg'] = dict(spec['cfg'], n_runners_up=draw(st.integers(2, 4)), bootstrap_iteration=12,
                            bootstrap_factor=draw(st.sampled_from([0.33, 0.5])), bootstrap_factor_lookup=None)
@@ -169,6 +169,16 @@ def check(spec):
             raise Violation('marker_genes_keys', {'src': name, 'got': sorted(src['marker_genes']), 'want': sorted(want_keys)})
     if out['marker_genes'] != blob['marker_genes']:
         raise Violation('marker_genes_json_vs_hdf5', {})
+    # "the embedded marker table lists what was used": the genes usable at each voting parent by the C08 reference
+    # model (own list, ancestor / root fallback, restricted to the query); nothing at parents that hold no election
+    want_used, how = refmodel.model_marker_genes(spec)
+    for k, want_set in want_used.items():
+        got_list = list(out['marker_genes'].get(k, []))
+        if how[k] == 'single_child':
+            if got_list:
+                raise Violation('embedded_markers_at_parent_without_election', {'parent': k, 'genes': got_list[:10]})
+        elif set(got_list) != set(want_set):
+            raise Violation('embedded_markers_not_what_was_used', {'parent': k, 'got': sorted(got_list)[:20], 'want': sorted(want_set)[:20]})
     inferred = cfg['flatten'] and len(h) > 1 or cfg.get('drop_level') in h[:-1]
     has_names = bool(tree.get('name_mapper'))
     classes = []
